@@ -154,7 +154,7 @@ pub struct Device<G>(pub G);
 impl<G> Device<G> { #[verifier::external_body] pub fn public_key(&self) -> &NodeId { unimplemented!() } }
 pub struct RateLimit;
 pub struct RateLimits { pub inbound: RateLimit, pub outbound: RateLimit }
-pub struct Limits { pub rate: RateLimits }
+pub struct Limits { pub rate: RateLimits, pub routing_max_size: usize, pub routing_max_age: LocalDuration, pub gossip_max_age: LocalDuration, pub fetch_concurrency: usize, pub max_open_files: usize }
 pub struct Config { pub limits: Limits }
 impl Config { #[verifier::external_body] pub fn is_relay(&self) -> bool { unimplemented!() } }
 pub struct HostName;
@@ -171,6 +171,15 @@ pub mod session {
 pub enum PingState { None, AwaitingResponse { len: u16, since: LocalTime }, Ok }
 pub enum State { Initial, Attempted, Connected { since: LocalTime, ping: PingState, latencies: VecDeque<LocalDuration>, stable: bool }, Disconnected { since: LocalTime, retry_at: LocalTime } }
 /// ASSUMED (localtime): `LocalTime - LocalTime` saturates (never panics)
+/// ASSUMED (localtime): `LocalTime - LocalDuration` saturates at zero
+impl std::ops::Sub<LocalDuration> for LocalTime { type Output = LocalTime; #[verifier::external_body] fn sub(self, o: LocalDuration) -> LocalTime { unimplemented!() } }
+impl vstd::std_specs::ops::SubSpecImpl<LocalDuration> for LocalTime {
+    open spec fn obeys_sub_spec() -> bool { true }
+    open spec fn sub_req(self, o: LocalDuration) -> bool { true }
+    open spec fn sub_spec(self, o: LocalDuration) -> LocalTime { LocalTime { ms: if self.ms >= o.ms { (self.ms - o.ms) as u64 } else { 0 } } }
+}
+impl From<LocalTime> for Timestamp { fn from(t: LocalTime) -> (r: Timestamp) ensures r == Timestamp(t.ms) { Timestamp(t.ms) } }
+impl vstd::std_specs::convert::FromSpecImpl<LocalTime> for Timestamp { open spec fn obeys_from_spec() -> bool { true } open spec fn from_spec(t: LocalTime) -> Timestamp { Timestamp(t.ms) } }
 impl std::ops::Sub<LocalTime> for LocalTime { type Output = LocalDuration; #[verifier::external_body] fn sub(self, o: LocalTime) -> LocalDuration { unimplemented!() } }
 impl vstd::std_specs::ops::SubSpecImpl<LocalTime> for LocalTime {
     open spec fn obeys_sub_spec() -> bool { false }
